@@ -167,6 +167,11 @@ pub fn run(tier: Tier) -> i32 {
         Expr::Field(Box::new(Expr::TupleIndex(Box::new(var("a")), 0)), "f".into()),
         Expr::Neg(Box::new(Expr::Int("1".into()))),
         Expr::Not(Box::new(Expr::Not(Box::new(var("a"))))),
+        // operands that end in a closing brace: case, block, anonymous function
+        Expr::Case(vec![var("a")], vec![Clause { alts: vec![vec![Pattern::Int("1".into())]], guard: None, body: var("b") }, Clause { alts: vec![vec![Pattern::Discard("_".into())]], guard: None, body: var("c") }]),
+        Expr::Block(vec![Stmt::Expr(var("a"))]),
+        Expr::Lambda(vec![], None, vec![Stmt::Expr(var("a"))]),
+        Expr::Call(Box::new(Expr::Block(vec![Stmt::Expr(var("a"))])), vec![]),
     ];
     for s in &specials {
         for op in &all_ops {
@@ -175,7 +180,7 @@ pub fn run(tier: Tier) -> i32 {
             chains.push(chain_module(vec![var("b"), s.clone(), var("c")], vec![op, "+"]));
         }
     }
-    run_layer(&mut rep, "operator-tables", &chains, &[Layout::Space, Layout::Tight, Layout::Lines], format!("all {}x{} infix pairs, all triples over one representative per precedence level, prefix/postfix operands on either side of every operator; expected grouping by reference precedence climbing", all_ops.len(), all_ops.len()), &mut distinct);
+    run_layer(&mut rep, "operator-tables", &chains, &[Layout::Space, Layout::Tight, Layout::Lines], format!("all {}x{} infix pairs, all triples over one representative per precedence level, prefix / postfix / brace-ended (case, block, anonymous function) operands on either side of every operator; expected grouping by reference precedence climbing", all_ops.len(), all_ops.len()), &mut distinct);
     // G3: string literals - every sequence of <= 3 units over {a, \\, \", \n, é} in expression,
     // let, constant, pattern and argument position, followed by an item that contains a string
     // of its own (so that a literal running past its closing quote is visible)
